@@ -3,6 +3,7 @@ package c02
 import (
 	"encoding/json"
 	"fmt"
+	"go.flow.arcalot.io/pluginsdk/schema"
 	"math"
 	"strconv"
 	"testing"
@@ -114,13 +115,21 @@ func RunNative(c Case) string {
 		return ""
 	}
 	want := model.Check(c.Spec, nil, mv)
-	native := model.ToNative(c.Spec, nil, mv)
+	if msg := runNativeForm(sch, c, mv, want, model.ToNative); msg != "" {
+		return msg
+	}
+	// the same value with its empty lists and maps as nil slices / nil maps: "no elements" in its other native form
+	return runNativeForm(sch, c, mv, want, model.ToNativeNil)
+}
+
+func runNativeForm(sch schema.Type, c Case, mv any, want bool, toNative func(*spec.Spec, *model.Env, any) any) string {
+	native := toNative(c.Spec, nil, mv)
 	var verr, serr error
 	var ser any
 	if p := safely(func() { verr = sch.Validate(native) }); p != nil {
 		return fmt.Sprintf("Validate(%#v) panicked: %v", native, p)
 	}
-	if p := safely(func() { ser, serr = sch.Serialize(model.ToNative(c.Spec, nil, mv)) }); p != nil {
+	if p := safely(func() { ser, serr = sch.Serialize(toNative(c.Spec, nil, mv)) }); p != nil {
 		return fmt.Sprintf("Serialize(%#v) panicked: %v", native, p)
 	}
 	if (verr == nil) != want {
